@@ -957,4 +957,464 @@ theorem alookup_pruneSpace_aset (rem : List (String × Trie)) (space sp : String
   · simp [h, alookup_aset_same]
   · simp [h, alookup_aset_ne h]
 
+/-! ### `removeStreamPattern` and the unsubscribe loop -/
+
+theorem rsp_absent (r : StreamRec) (t : Trie) (space p : String) (h : p ∉ r.pats space) :
+    removeStreamPattern r t space p = (r, t, false) := by
+  simp only [removeStreamPattern]
+  cases hl : alookup space r.bySpace with
+  | none => rfl
+  | some pats =>
+    have : p ∉ pats := by simpa [StreamRec.pats, hl] using h
+    simp [this]
+
+theorem rsp_present (r : StreamRec) (t : Trie) (space p : String) (h0 : RecOK0 r) (h : p ∈ r.pats space) :
+    (removeStreamPattern r t space p).2.1 = (t.remove p).1 ∧
+    (removeStreamPattern r t space p).2.2 = true ∧
+    RecOK0 (removeStreamPattern r t space p).1 ∧
+    ∀ sp q, q ∈ (removeStreamPattern r t space p).1.pats sp ↔ q ∈ r.pats sp ∧ ¬(sp = space ∧ q = p) := by
+  simp only [removeStreamPattern]
+  cases hl : alookup space r.bySpace with
+  | none => simp [StreamRec.pats, hl] at h
+  | some pats =>
+    have hp : p ∈ pats := by simpa [StreamRec.pats, hl] using h
+    have hpats : r.pats space = pats := by simp [StreamRec.pats, hl]
+    have hnd : pats.Nodup := by rw [← hpats]; exact h0.pats_nodup space
+    have hlen := List.length_erase_of_mem hp
+    have hpos : pats.length ≥ 1 := by cases pats with | nil => simp at hp | cons a b => simp
+    simp only [hp, List.contains_eq_mem, decide_true, if_true, true_and]
+    by_cases he : (pats.erase p).isEmpty = true
+    · simp only [he, if_true]
+      have he' : pats.erase p = [] := List.isEmpty_iff.mp he
+      refine ⟨?_, ?_⟩
+      · exact {
+          keys := nodup_aerase h0.keys
+          entries := fun sp ps hm => h0.entries sp ps (mem_aerase.mp hm).1
+          total := by
+            have := sum_len_aerase space h0.keys
+            simp only [hl, Option.getD_some] at this
+            have ht := h0.total
+            rw [he'] at hlen; simp at hlen
+            simp only; omega }
+      · intro sp q
+        rw [pats_aerase]
+        by_cases hs : sp = space
+        · subst hs
+          simp only [if_true, List.not_mem_nil, false_iff, hpats, true_and, not_and, Decidable.not_not]
+          intro hq
+          apply Classical.byContradiction
+          intro hne
+          have : q ∈ pats.erase p := (hnd.mem_erase_iff).mpr ⟨hne, hq⟩
+          rw [he'] at this; simp at this
+        · simp [hs]
+    · simp only [he, Bool.false_eq_true, if_false]
+      have he' : pats.erase p ≠ [] := fun h' => he (List.isEmpty_iff.mpr h')
+      refine ⟨?_, ?_⟩
+      · exact {
+          keys := nodup_aset h0.keys
+          entries := fun sp ps hm => by
+            rcases (mem_aset h0.keys).mp hm with ⟨_, rfl⟩ | ⟨hm', _⟩
+            · exact ⟨hnd.erase p, he'⟩
+            · exact h0.entries sp ps hm'
+          total := by
+            have := sum_len_aset space (pats.erase p) (l := r.bySpace)
+            simp only [hl, Option.getD_some] at this
+            have ht := h0.total
+            simp only; omega }
+      · intro sp q
+        rw [pats_aset]
+        by_cases hs : sp = space
+        · subst hs
+          simp only [if_true, hpats, true_and]
+          rw [hnd.mem_erase_iff]
+          constructor
+          · rintro ⟨h1, h2⟩; exact ⟨h2, h1⟩
+          · rintro ⟨h1, h2⟩; exact ⟨h2, h1⟩
+        · simp [hs]
+
+/-- the body of the `for _, pattern := range patterns` loop of `handleUnsubscribe` -/
+def unsubStep (space : String) (acc : StreamRec × Trie × List String) (p : String) :
+    StreamRec × Trie × List String :=
+  ((removeStreamPattern acc.1 acc.2.1 space p).1, (removeStreamPattern acc.1 acc.2.1 space p).2.1,
+    if (removeStreamPattern acc.1 acc.2.1 space p).2.2 then acc.2.2 ++ [p] else acc.2.2)
+
+theorem unsubFold_spec (space : String) (ps : List String) (r : StreamRec) (t : Trie) (acc : List String)
+    (h : RecOK0 r) (ht : t.Reachable) :
+    RecOK0 (ps.foldl (unsubStep space) (r, t, acc)).1 ∧
+    (ps.foldl (unsubStep space) (r, t, acc)).2.1.Reachable ∧
+    (∀ sp q, q ∈ (ps.foldl (unsubStep space) (r, t, acc)).1.pats sp ↔
+        q ∈ r.pats sp ∧ ¬(sp = space ∧ q ∈ ps)) ∧
+    (∀ q, (ps.foldl (unsubStep space) (r, t, acc)).2.1.count q =
+        t.count q - (if q ∈ r.pats space ∧ q ∈ ps then 1 else 0)) ∧
+    (∀ q, q ∈ (ps.foldl (unsubStep space) (r, t, acc)).2.2 ↔ q ∈ acc ∨ (q ∈ r.pats space ∧ q ∈ ps)) := by
+  induction ps generalizing r t acc with
+  | nil => simp [h, ht]
+  | cons p rest ih =>
+    simp only [List.foldl_cons]
+    by_cases hp : p ∈ r.pats space
+    · obtain ⟨e1, e2, e3, e4⟩ := rsp_present r t space p h hp
+      have hstep : unsubStep space (r, t, acc) p =
+          ((removeStreamPattern r t space p).1, (t.remove p).1, acc ++ [p]) := by
+        simp only [unsubStep, e1, e2, if_true]
+      rw [hstep]
+      obtain ⟨i1, i2, i3, i4, i5⟩ := ih (removeStreamPattern r t space p).1 (t.remove p).1 (acc ++ [p]) e3
+        (Trie.Reachable.remove p ht)
+      refine ⟨i1, i2, ?_, ?_, ?_⟩
+      · intro sp q
+        rw [i3, e4]
+        simp only [List.mem_cons]
+        constructor
+        · rintro ⟨⟨a, b⟩, c⟩; exact ⟨a, fun ⟨x, y⟩ => y.elim (fun y => b ⟨x, y⟩) (fun y => c ⟨x, y⟩)⟩
+        · rintro ⟨a, b⟩; exact ⟨⟨a, fun ⟨x, y⟩ => b ⟨x, Or.inl y⟩⟩, fun ⟨x, y⟩ => b ⟨x, Or.inr y⟩⟩
+      · intro q
+        rw [i4, Trie.count_remove]
+        have hq := e4 space q
+        by_cases hqp : q = p
+        · subst hqp
+          have : ¬ q ∈ (removeStreamPattern r t space q).1.pats space := by rw [hq]; simp
+          simp [this, hp]
+        · have : (q ∈ (removeStreamPattern r t space p).1.pats space) ↔ q ∈ r.pats space := by
+            rw [hq]; simp [hqp]
+          simp only [this, hqp, if_false, Nat.sub_zero, List.mem_cons, false_or]
+      · intro q
+        rw [i5]
+        have hq := e4 space q
+        simp only [List.mem_append, List.mem_singleton, List.mem_cons]
+        by_cases hqp : q = p
+        · subst hqp
+          have : ¬ q ∈ (removeStreamPattern r t space q).1.pats space := by rw [hq]; simp
+          simp [this, hp]
+        · have : (q ∈ (removeStreamPattern r t space p).1.pats space) ↔ q ∈ r.pats space := by
+            rw [hq]; simp [hqp]
+          simp [this, hqp]
+    · have hstep : unsubStep space (r, t, acc) p = (r, t, acc) := by
+        simp only [unsubStep, rsp_absent r t space p hp]; simp
+      rw [hstep]
+      obtain ⟨i1, i2, i3, i4, i5⟩ := ih r t acc h ht
+      refine ⟨i1, i2, ?_, ?_, ?_⟩
+      · intro sp q
+        rw [i3]
+        simp only [List.mem_cons]
+        constructor
+        · rintro ⟨a, b⟩
+          refine ⟨a, fun ⟨x, y⟩ => y.elim (fun y => ?_) (fun y => b ⟨x, y⟩)⟩
+          subst x; subst y; exact hp a
+        · rintro ⟨a, b⟩; exact ⟨a, fun ⟨x, y⟩ => b ⟨x, Or.inr y⟩⟩
+      · intro q
+        rw [i4]
+        by_cases hqp : q = p
+        · subst hqp; simp [hp]
+        · simp [hqp]
+      · intro q
+        rw [i5]
+        by_cases hqp : q = p
+        · subst hqp; simp [hp]
+        · simp [hqp]
+
+/-! ### one stream's record, one space's trie and that stream's tags change together -/
+
+/-- The common shape of subscribe and unsubscribe: the record of stream `sid` becomes `rec1` (pruned
+if empty), the trie of `space` becomes `t1` (pruned if empty), and only the tags of `sid` change.
+If the new trie counts and the new tags account exactly for the change of the record in `space`,
+the invariant is kept. -/
+theorem Agree_update {s s' : NodeSt} (h : s.Agree) (sid : Nat) (space : String) (rec1 : StreamRec) (t1 : Trie)
+    (hs : s'.streams = NodeSt.pruneStream (aset sid rec1 s.streams) sid)
+    (hr : s'.remote = NodeSt.pruneSpace (aset space t1 s.remote) space)
+    (hrec : RecOK0 rec1) (ht1 : t1.Reachable)
+    (hother : ∀ sp, sp ≠ space → rec1.pats sp = (alookup sid s.streams).elim [] (fun r0 => r0.pats sp))
+    (hcount : ∀ q, t1.count q + (if q ∈ (alookup sid s.streams).elim [] (fun r0 => r0.pats space) then 1 else 0) =
+        (alookup space s.remote).elim 0 (fun t => t.count q) + (if q ∈ rec1.pats space then 1 else 0))
+    (hsids : s'.pool.map (·.sid) = s.pool.map (·.sid))
+    (hpool_ne : ∀ st', st' ∈ s'.pool → st'.sid ≠ sid → st' ∈ s.pool)
+    (hpool_eq : ∀ st', st' ∈ s'.pool → st'.sid = sid → ∀ tag,
+        (tag ∈ st'.tags ↔ ∃ sp q, q ∈ rec1.pats sp ∧ tag = interestTag sp q))
+    (hvalid : rec1.pats space ≠ [] → validSpaceId space = true)
+    (hinpool : (∃ sp q, q ∈ rec1.pats sp) → ∃ st, st ∈ s.pool ∧ st.sid = sid) : s'.Agree := by
+  have hreg : ∀ sid' sp q, s'.Reg sid' sp q ↔ (if sid' = sid then q ∈ rec1.pats sp else s.Reg sid' sp q) := by
+    intro sid' sp q
+    simp only [NodeSt.Reg, hs, alookup_pruneStream_aset]
+    by_cases he : sid' = sid
+    · simp only [he, if_true]
+      by_cases hz : rec1.total = 0
+      · simp [hz, hrec.pats_nil_of_total_zero hz sp]
+      · simp [hz]
+    · simp [he]
+  have hold_reg : ∀ sp q, q ∈ (alookup sid s.streams).elim [] (fun r0 => r0.pats sp) ↔ s.Reg sid sp q := by
+    intro sp q
+    simp only [NodeSt.Reg]
+    cases alookup sid s.streams with
+    | none => simp
+    | some r0 => simp
+  have hsn : (s'.streams.map Prod.fst).Nodup := by rw [hs]; exact nodup_pruneStream_aset h.streamsNodup sid rec1
+  have hrc : ∀ sp q, regCount s'.streams sp q +
+      (if q ∈ (alookup sid s.streams).elim [] (fun r0 => r0.pats sp) then 1 else 0) =
+      regCount s.streams sp q + (if q ∈ rec1.pats sp then 1 else 0) := by
+    intro sp q
+    have := regCount_pruneStream_aset h.streamsNodup sid rec1 hrec sp q
+    rw [hs]
+    cases ho : alookup sid s.streams with
+    | none =>
+      simp only [ho, Option.elim_none, Nat.add_zero] at this
+      by_cases h2 : q ∈ rec1.pats sp <;> simp [StreamRec.has, h2] at this ⊢ <;> omega
+    | some r0 =>
+      simp only [ho, Option.elim_some] at this
+      by_cases h1 : q ∈ r0.pats sp <;> by_cases h2 : q ∈ rec1.pats sp <;>
+        simp [StreamRec.has, h1, h2] at this ⊢ <;> omega
+  -- refcounts of the rewritten trie are the new registration counts
+  have hcnt1 : ∀ q, t1.count q = regCount s'.streams space q := by
+    intro q
+    have h1 := hcount q
+    have h2 := hrc space q
+    cases ht : alookup space s.remote with
+    | some t =>
+      have := h.trieCount space t ht q
+      simp only [ht, Option.elim_some] at h1
+      omega
+    | none =>
+      have hz : regCount s.streams space q = 0 := by
+        apply Classical.byContradiction
+        intro hne
+        obtain ⟨sid0, hreg0⟩ := (h.toAgreeCore.regCount_pos_iff space q).mp (by omega)
+        obtain ⟨t, ht'⟩ := h.trieHas sid0 space q hreg0
+        rw [ht] at ht'; cases ht'
+      simp only [ht, Option.elim_none] at h1
+      omega
+  have hremote : ∀ sp t', alookup sp s'.remote = some t' →
+      (sp = space ∧ t' = t1 ∧ t1.size ≠ 0) ∨ (sp ≠ space ∧ alookup sp s.remote = some t') := by
+    intro sp t' ht'
+    rw [hr, alookup_pruneSpace_aset] at ht'
+    by_cases he : sp = space
+    · left
+      simp only [he, if_true] at ht'
+      split at ht'
+      · cases ht'
+      · rename_i hz; cases ht'; exact ⟨he, rfl, hz⟩
+    · right; simp only [he, if_false] at ht'; exact ⟨he, ht'⟩
+  exact {
+    poolNodup := by rw [hsids]; exact h.poolNodup
+    streamsNodup := hsn
+    recOK := fun sid' r' hl' => by
+      rw [hs, alookup_pruneStream_aset] at hl'
+      by_cases he : sid' = sid
+      · simp only [he, if_true] at hl'
+        split at hl'
+        · cases hl'
+        · rename_i hz
+          cases hl'
+          exact { toRecOK0 := hrec, nonempty := fun hb => hz (hrec.total_zero_iff.mpr hb) }
+      · simp only [he, if_false] at hl'; exact h.recOK sid' r' hl'
+    trieReach := fun sp t' ht' => by
+      rcases hremote sp t' ht' with ⟨_, rfl, _⟩ | ⟨_, ht0⟩
+      · exact ht1
+      · exact h.trieReach sp t' ht0
+    trieCount := fun sp t' ht' q => by
+      rcases hremote sp t' ht' with ⟨rfl, rfl, _⟩ | ⟨hne, ht0⟩
+      · exact hcnt1 q
+      · have h2 := hrc sp q
+        rw [hother sp hne] at h2
+        rw [h.trieCount sp t' ht0 q]; omega
+    trieLive := fun sp t' ht' => by
+      rcases hremote sp t' ht' with ⟨_, rfl, hz⟩ | ⟨_, ht0⟩
+      · exact hz
+      · exact h.trieLive sp t' ht0
+    trieHas := fun sid' sp q hreg1 => by
+      rw [hr, alookup_pruneSpace_aset]
+      by_cases he : sp = space
+      · subst he
+        simp only [if_true]
+        have hpos : regCount s'.streams sp q > 0 := by
+          rw [regCount_pos_iff hsn]
+          obtain ⟨r', hl', hp'⟩ := hreg1
+          exact ⟨sid', r', hl', hp'⟩
+        rw [← hcnt1 q] at hpos
+        split
+        · rename_i hz
+          have := (Trie.size_eq_zero_iff ht1).mp hz q
+          omega
+        · exact ⟨_, rfl⟩
+      · simp only [he, if_false]
+        have hreg0 : ∃ sid0, s.Reg sid0 sp q := by
+          have := (hreg sid' sp q).mp hreg1
+          by_cases hsd : sid' = sid
+          · simp only [hsd, if_true] at this
+            rw [hother sp he] at this
+            exact ⟨sid, (hold_reg sp q).mp this⟩
+          · simp only [hsd, if_false] at this; exact ⟨sid', this⟩
+        obtain ⟨sid0, hr0⟩ := hreg0
+        exact h.trieHas sid0 sp q hr0
+    tags := fun st' hst' tag => by
+      by_cases hsd : st'.sid = sid
+      · rw [hpool_eq st' hst' hsd tag]
+        constructor
+        · rintro ⟨sp, q, hq, he⟩; exact ⟨sp, q, (hreg st'.sid sp q).mpr (by simp [hsd, hq]), he⟩
+        · rintro ⟨sp, q, hq, he⟩
+          have := (hreg st'.sid sp q).mp hq
+          simp only [hsd, if_true] at this
+          exact ⟨sp, q, this, he⟩
+      · rw [h.tags st' (hpool_ne st' hst' hsd) tag]
+        constructor
+        · rintro ⟨sp, q, hq, he⟩; exact ⟨sp, q, (hreg st'.sid sp q).mpr (by simp [hsd, hq]), he⟩
+        · rintro ⟨sp, q, hq, he⟩
+          have := (hreg st'.sid sp q).mp hq
+          simp only [hsd, if_false] at this
+          exact ⟨sp, q, this, he⟩
+    inPool := fun sid' sp q hreg1 => by
+      have hmem : sid' ∈ s.pool.map (·.sid) := by
+        have := (hreg sid' sp q).mp hreg1
+        by_cases hsd : sid' = sid
+        · simp only [hsd, if_true] at this
+          obtain ⟨st, hst, hs'⟩ := hinpool ⟨sp, q, this⟩
+          exact List.mem_map.mpr ⟨st, hst, by rw [hs', hsd]⟩
+        · simp only [hsd, if_false] at this
+          obtain ⟨st, hst, hs'⟩ := h.inPool sid' sp q this
+          exact List.mem_map.mpr ⟨st, hst, hs'⟩
+      rw [← hsids] at hmem
+      obtain ⟨st', hst', hs'⟩ := List.mem_map.mp hmem
+      exact ⟨st', hst', hs'⟩
+    validReg := fun sid' sp q hreg1 => by
+      have := (hreg sid' sp q).mp hreg1
+      by_cases hsd : sid' = sid
+      · simp only [hsd, if_true] at this
+        by_cases he : sp = space
+        · subst he
+          exact hvalid (fun hnil => by rw [hnil] at this; cases this)
+        · rw [hother sp he] at this
+          exact h.validReg sid sp q ((hold_reg sp q).mp this)
+      · simp only [hsd, if_false] at this; exact h.validReg sid' sp q this }
+
+/-! ### `handleUnsubscribe` -/
+
+theorem rsp_pats_ne (r : StreamRec) (t : Trie) (space p sp : String) (h : sp ≠ space) :
+    (removeStreamPattern r t space p).1.pats sp = r.pats sp := by
+  simp only [removeStreamPattern]
+  cases alookup space r.bySpace with
+  | none => rfl
+  | some pats =>
+    simp only
+    split
+    · split
+      · rw [pats_aerase]; simp [h]
+      · rw [pats_aset]; simp [h]
+    · rfl
+
+theorem unsubFold_pats_ne (space : String) (ps : List String) (r : StreamRec) (t : Trie) (acc : List String)
+    (sp : String) (h : sp ≠ space) : (ps.foldl (unsubStep space) (r, t, acc)).1.pats sp = r.pats sp := by
+  induction ps generalizing r t acc with
+  | nil => rfl
+  | cons p rest ih =>
+    simp only [List.foldl_cons, unsubStep]
+    rw [ih, rsp_pats_ne _ _ _ _ _ h]
+
+theorem handleUnsubscribe_some (s : NodeSt) (sid : Nat) (space : String) (topics : List String)
+    (rec0 : StreamRec) (t : Trie) (hl : alookup sid s.streams = some rec0) (ht : alookup space s.remote = some t) :
+    s.handleUnsubscribe sid space topics =
+      (if ((if topics.isEmpty then rec0.pats space else topics).foldl (unsubStep space) (rec0, t, [])).2.2.isEmpty
+       then ({ s with
+          streams := NodeSt.pruneStream (aset sid ((if topics.isEmpty then rec0.pats space else topics).foldl (unsubStep space) (rec0, t, [])).1 s.streams) sid,
+          remote := NodeSt.pruneSpace (aset space ((if topics.isEmpty then rec0.pats space else topics).foldl (unsubStep space) (rec0, t, [])).2.1 s.remote) space } : NodeSt)
+       else ({ s with
+          streams := NodeSt.pruneStream (aset sid ((if topics.isEmpty then rec0.pats space else topics).foldl (unsubStep space) (rec0, t, [])).1 s.streams) sid,
+          remote := NodeSt.pruneSpace (aset space ((if topics.isEmpty then rec0.pats space else topics).foldl (unsubStep space) (rec0, t, [])).2.1 s.remote) space } : NodeSt).removeTags sid
+            (((if topics.isEmpty then rec0.pats space else topics).foldl (unsubStep space) (rec0, t, [])).2.2.map (interestTag space))) := by
+  simp only [NodeSt.handleUnsubscribe, NodeSt.getTrie, hl, ht]
+  rfl
+
+theorem Agree_handleUnsubscribe {s : NodeSt} (h : s.Agree) (sid : Nat) (space : String) (topics : List String) :
+    (s.handleUnsubscribe sid space topics).Agree := by
+  cases hl : alookup sid s.streams with
+  | none => simpa [NodeSt.handleUnsubscribe, hl] using h
+  | some rec0 =>
+  cases ht : alookup space s.remote with
+  | none => simpa [NodeSt.handleUnsubscribe, NodeSt.getTrie, hl, ht] using h
+  | some t =>
+  rw [handleUnsubscribe_some s sid space topics rec0 t hl ht]
+  generalize hps : (if topics.isEmpty then rec0.pats space else topics) = ps
+  have hr0 := (h.recOK sid rec0 hl).toRecOK0
+  obtain ⟨R1, R2, R3, R4, R5⟩ := unsubFold_spec space ps rec0 t [] hr0 (h.trieReach space t ht)
+  have R6 := fun sp hne => unsubFold_pats_ne space ps rec0 t [] sp hne
+  generalize hres : ps.foldl (unsubStep space) (rec0, t, []) = res at R1 R2 R3 R4 R5 R6
+  obtain ⟨rec1, t1, removed⟩ := res
+  simp only at R1 R2 R3 R4 R5 R6 ⊢
+  simp only [List.not_mem_nil, false_or] at R5
+  -- the tags of the stream after the removal
+  have key : ∀ st, st ∈ s.pool → st.sid = sid → ∀ tag,
+      ((tag ∈ st.tags ∧ tag ∉ removed.map (interestTag space)) ↔
+        ∃ sp q, q ∈ rec1.pats sp ∧ tag = interestTag sp q) := by
+    intro st hst hsid tag
+    rw [h.tags st hst tag]
+    constructor
+    · rintro ⟨⟨sp, q, ⟨r0, hl0, hq⟩, rfl⟩, hnot⟩
+      rw [hsid, hl] at hl0; cases hl0
+      refine ⟨sp, q, (R3 sp q).mpr ⟨hq, ?_⟩, rfl⟩
+      rintro ⟨rfl, hqps⟩
+      exact hnot (List.mem_map.mpr ⟨q, (R5 q).mpr ⟨hq, hqps⟩, rfl⟩)
+    · rintro ⟨sp, q, hq, rfl⟩
+      obtain ⟨hq0, hn⟩ := (R3 sp q).mp hq
+      refine ⟨⟨sp, q, ⟨rec0, by rw [hsid]; exact hl, hq0⟩, rfl⟩, ?_⟩
+      intro hm
+      obtain ⟨q', hq', heq⟩ := List.mem_map.mp hm
+      obtain ⟨hq'0, hq'ps⟩ := (R5 q').mp hq'
+      have v1 := h.validReg sid space q' ⟨rec0, hl, hq'0⟩
+      have v2 := h.validReg sid sp q ⟨rec0, hl, hq0⟩
+      obtain ⟨e1, e2⟩ := interestTag_inj v1 v2 heq
+      subst e1; subst e2
+      exact hn ⟨rfl, hq'ps⟩
+  have hcount : ∀ q, t1.count q + (if q ∈ (alookup sid s.streams).elim [] (fun r0 => r0.pats space) then 1 else 0) =
+      (alookup space s.remote).elim 0 (fun t => t.count q) + (if q ∈ rec1.pats space then 1 else 0) := by
+    intro q
+    simp only [hl, ht, Option.elim_some]
+    have h4 := R4 q
+    have h3 := R3 space q
+    by_cases hq0 : q ∈ rec0.pats space
+    · have hge : t.count q ≥ 1 := by
+        rw [h.trieCount space t ht q]
+        have := (h.toAgreeCore.regCount_pos_iff space q).mpr ⟨sid, rec0, hl, hq0⟩
+        omega
+      by_cases hqps : q ∈ ps
+      · have : ¬ q ∈ rec1.pats space := by rw [h3]; simp [hqps]
+        simp [hq0, hqps, this] at h4 ⊢; omega
+      · have : q ∈ rec1.pats space := by rw [h3]; simp [hq0, hqps]
+        simp [hq0, hqps, this] at h4 ⊢; omega
+    · have : ¬ q ∈ rec1.pats space := by rw [h3]; simp [hq0]
+      simp [hq0, this] at h4 ⊢; omega
+  have hother : ∀ sp, sp ≠ space → rec1.pats sp = (alookup sid s.streams).elim [] (fun r0 => r0.pats sp) := by
+    intro sp hne; simp only [hl, Option.elim_some]; exact R6 sp hne
+  have hvalid : rec1.pats space ≠ [] → validSpaceId space = true := by
+    intro hne
+    cases hp : rec1.pats space with
+    | nil => exact absurd hp hne
+    | cons q qs =>
+      have : q ∈ rec1.pats space := by simp [hp]
+      exact h.validReg sid space q ⟨rec0, hl, ((R3 space q).mp this).1⟩
+  have hinpool : (∃ sp q, q ∈ rec1.pats sp) → ∃ st, st ∈ s.pool ∧ st.sid = sid := by
+    rintro ⟨sp, q, hq⟩
+    exact h.inPool sid sp q ⟨rec0, hl, ((R3 sp q).mp hq).1⟩
+  by_cases hrem : removed.isEmpty = true
+  · simp only [hrem, if_true]
+    have hrem' : removed = [] := List.isEmpty_iff.mp hrem
+    refine Agree_update h sid space rec1 t1 rfl rfl R1 R2 hother hcount rfl (fun st' hst' _ => hst') ?_ hvalid hinpool
+    intro st' hst' hsid tag
+    have := key st' hst' hsid tag
+    simpa [hrem'] using this
+  · simp only [hrem, Bool.false_eq_true, if_false]
+    refine Agree_update h sid space rec1 t1 rfl rfl R1 R2 hother hcount ?_ ?_ ?_ hvalid hinpool
+    · simp only [NodeSt.removeTags, List.map_map]
+      congr 1
+      funext st
+      simp only [Function.comp]
+      split <;> rfl
+    · intro st' hst' hne
+      simp only [NodeSt.removeTags, List.mem_map] at hst'
+      obtain ⟨st, hst, rfl⟩ := hst'
+      by_cases hs : st.sid = sid
+      · simp [hs] at hne
+      · simpa [hs] using hst
+    · intro st' hst' hsid tag
+      simp only [NodeSt.removeTags, List.mem_map] at hst'
+      obtain ⟨st, hst, rfl⟩ := hst'
+      by_cases hs : st.sid = sid
+      · simp only [hs, if_true, List.mem_filter, Bool.not_eq_true', List.contains_eq_mem, decide_eq_false_iff_not]
+        exact key st hst hs tag
+      · simp [hs] at hsid
+
 end AnySync.PubSub
